@@ -1493,6 +1493,34 @@ package gedcom
 //@ iface Node.Equals(node2)
 //@   assigns nothing
 
+// C09 (list merge): the length guarantees 1 (lower half) and 2 of the
+// documentation, and guarantee 4 for the left side. Every element of the left
+// list is deep-copied first; afterwards each round either merges one right
+// element into one element of the result (same length, one right element
+// fewer, the merged node marked) or appends the copy of one right element.
+// The merge function is only ever handed a result element for which the
+// merged-set has just answered "not merged yet", together with the document.
+// Not expressed: that at most |left| merges happen (a cardinality over the
+// merged-set), hence the bound max(|left|,|right|) only as |left|.
+//@ func MergeNodeSlices
+//@   props C09
+//@   ghost nMerge int = 0
+//@   ghost hasArg iface
+//@   ghost hasRes bool = true
+//@   opaque DeepCopy, NodeSet.Has, NodeSet.Add
+//@   oncall NodeSet.Has do hasArg = arg1; hasRes = result
+//@   oncall call:mergeFn check left-not-merged-before: arg0 == hasArg && !hasRes
+//@   oncall call:mergeFn check into-the-document: arg2 == document
+//@   oncall NodeSet.Add#1 do nMerge = nMerge + 1
+//@   loop 1 invariant copies-left: len(newSlice) == rangeindex + 1 && rangeindex < len(left) && nMerge == 0
+//@   loop 2 invariant accounts: len(newSlice) >= len(left) && nMerge >= 0 && len(newSlice) + len(right) + nMerge == len(left) + len(right0)
+//@   loop 3 invariant accounts: len(newSlice) >= len(left) && nMerge >= 0 && len(newSlice) + len(right) + nMerge == len(left) + len(right0) && i >= 0 && (found || len(right) > 0)
+//@   loop 4 invariant accounts: len(newSlice) >= len(left) && nMerge >= 0 && len(newSlice) + len(right) + nMerge == len(left) + len(right0) && i >= 0 && i < len(newSlice) && (found || len(right) > 0)
+//@   ensures at-least-left: len(result) >= len(left)
+//@   ensures at-most-sum: len(result) <= len(left) + len(right0)
+//@   ensures one-fewer-per-merge: len(result) == len(left) + len(right0) - nMerge
+//@   safety
+
 // C08 (provenance): a node that arrives from the left side can only fill the
 // Left slot of an entry, one from the right side only the Right slot, and a
 // slot that is filled is never overwritten. Observed where the children are
